@@ -32,6 +32,17 @@
 (*                       a place) ; drl[k] error stored for it (E initial)  *)
 (*            ind[p]     the peak list gr.ind taken by the second loop      *)
 (*            savedpk[p] rows savegrains wrote hkl for                      *)
+(*            sobj, skey the (grain object, key) pairs of the running        *)
+(*                       refineubis / savegrains loop: step i works on the  *)
+(*                       grain OBJECT of place sobj[i] after loading the    *)
+(*                       translation of KEY skey[i].  savegrains(sort_npks) *)
+(*                       orders the keys by decreasing npks = |ind| (ties   *)
+(*                       in any order), else by place; the pairs are built  *)
+(*                       from the keys, so skey = sobj                      *)
+(*            col[k]     <<place, translation>> the per-peak columns (gx..l, *)
+(*                       tth / eta / omegacalc per grain) of peak k were    *)
+(*                       last filled with: the ubi of that place and that   *)
+(*                       translation ; fresh = savegrains just returned     *)
 (* actions    one per inner step: SetTranslation, KernelGv (compute_gv in   *)
 (*            assignlabels, translation passed by argument), ScoreAssign    *)
 (*            (closest.c score_and_assign: if (err < tol^2 && err <         *)
@@ -49,17 +60,23 @@
 (*            StoredError, OrderIndependent (without ties the owner, as a   *)
 (*            grain, is a function of err alone: the order of the ubi file  *)
 (*            does not matter), IndIsOwned, SavedRowsDisjoint ; NoBad also  *)
-(*            covers "hkl written to rows the grain does not own"           *)
+(*            covers "hkl written to rows the grain does not own" ;         *)
+(*            SavedColumnsOwn (when savegrains returns, the columns of      *)
+(*            every owned peak were filled with the ubi and the translation *)
+(*            of its owner, for both values of sort_npks), SaveOrder        *)
 (* bounds     NG grains, NP peaks, E error levels, MAXCALLS public calls :  *)
-(*            _q 2/1/3/5, _t 3/1/3/6, _t2 2/2/2/5 ; _bug (DROP_SETT) and    *)
-(*            _bug2 (LAST_WINS) are seeded defects that must be caught      *)
+(*            _q 2/1/3/5, _t 3/1/3/6, _t2 2/2/2/5 ; _bug (DROP_SETT),       *)
+(*            _bug2 (LAST_WINS) and _bug3 (SORT_OBJ_ONLY) are seeded        *)
+(*            defects that must be caught                                   *)
 (***************************************************************************)
 EXTENDS Integers, Sequences, FiniteSets, TLC
 
 CONSTANTS NG, MAXCALLS, MAXFIT, NP, E,
           DROP_SETT,   \* TRUE: refineubis/savegrains forget set_translation (a seeded protocol defect: must be caught)
-          LAST_WINS    \* TRUE: score_and_assign labels every peak inside the tolerance (the last grain listed wins instead
+          LAST_WINS,   \* TRUE: score_and_assign labels every peak inside the tolerance (the last grain listed wins instead
                        \*       of the best fitting one; a seeded defect: BestOwner / OrderIndependent must catch it)
+          SORT_OBJ_ONLY \* TRUE: savegrains(sort_npks) re-orders the grain objects but not the keys they are paired with
+                       \*       (a seeded defect: SavedColumnsOwn / NoBad must catch it)
 Grains == 1..NG
 Peaks == 1..NP
 Perms == {p \in [Grains -> Grains] : \A i, j \in Grains : i # j => p[i] # p[j]}
@@ -67,9 +84,12 @@ T_NONE == <<"none", 0, 0>>
 T_GLOBAL == <<"global", 0, 0>>
 
 VARIABLES par_t, grain_t, gen, lab, nfit, tol, gvfor, call, step, cur, ncalls, bad, reset, presented, savedt,
-          err, order, own, drl, ind, savedpk
+          err, order, own, drl, ind, savedpk, sobj, skey, col, fresh
 pk == <<err, order, own, drl, ind, savedpk>>
-vars == <<par_t, grain_t, gen, lab, nfit, tol, gvfor, call, step, cur, ncalls, bad, reset, presented, savedt, pk>>
+sav == <<sobj, skey, col>>
+vars == <<par_t, grain_t, gen, lab, nfit, tol, gvfor, call, step, cur, ncalls, bad, reset, presented, savedt, pk, sav, fresh>>
+IdPerm == [g \in Grains |-> g]
+C_NONE == <<0, T_NONE>>
 
 Init == /\ par_t = T_GLOBAL /\ grain_t = [g \in Grains |-> T_NONE] /\ gen = FALSE /\ lab = FALSE
         /\ nfit = [g \in Grains |-> 0] /\ tol = "user" /\ gvfor = <<0, T_NONE>>
@@ -78,9 +98,10 @@ Init == /\ par_t = T_GLOBAL /\ grain_t = [g \in Grains |-> T_NONE] /\ gen = FALS
         /\ err \in [Grains -> [Peaks -> 0..E]] /\ order \in Perms
         /\ own = [k \in Peaks |-> 0] /\ drl = [k \in Peaks |-> E]
         /\ ind = [g \in Grains |-> {}] /\ savedpk = [g \in Grains |-> {}]
+        /\ sobj = IdPerm /\ skey = IdPerm /\ col = [k \in Peaks |-> C_NONE] /\ fresh = FALSE
 
 Idle == call = "idle" /\ bad = ""
-Enter(c) == /\ Idle /\ ncalls < MAXCALLS /\ call' = c /\ step' = 1 /\ cur' = 1 /\ ncalls' = ncalls + 1
+Enter(c) == /\ Idle /\ ncalls < MAXCALLS /\ call' = c /\ step' = 1 /\ cur' = 1 /\ ncalls' = ncalls + 1 /\ fresh' = FALSE
 Keep(vs) == UNCHANGED vs
 Flag(msg) == bad' = IF bad = "" THEN msg ELSE bad
 
@@ -89,24 +110,24 @@ Generate == /\ Enter("generate")
             /\ grain_t' = [g \in Grains |-> IF grain_t[g] = T_NONE THEN <<"read", g, 0>> ELSE grain_t[g]]
             /\ gen' = TRUE /\ lab' = FALSE
             /\ own' = [k \in Peaks |-> 0] /\ drl' = [k \in Peaks |-> E]          \* reset_labels
-            /\ Keep(<<par_t, nfit, tol, gvfor, bad, reset, presented, savedt, err, order, ind, savedpk>>)
+            /\ Keep(<<par_t, nfit, tol, gvfor, bad, reset, presented, savedt, err, order, ind, savedpk, sav>>)
 GenerateDone == /\ call = "generate" /\ call' = "idle" /\ step' = 0 /\ cur' = 0
-                /\ Keep(<<par_t, grain_t, gen, lab, nfit, tol, gvfor, ncalls, bad, reset, presented, savedt, pk>>)
+                /\ Keep(<<par_t, grain_t, gen, lab, nfit, tol, gvfor, ncalls, bad, reset, presented, savedt, pk, sav, fresh>>)
 
 \* ---- assignlabels: reset ; for g: set_translation, C compute_gv(t = gr.translation), score_and_assign ; second loop
 StartAssign(c) == /\ Enter(c) /\ gen
                   /\ reset' = TRUE /\ presented' = {}                \* int_tmp = -1 ; drlv2 = 1
                   /\ own' = [k \in Peaks |-> 0] /\ drl' = [k \in Peaks |-> E]
-                  /\ Keep(<<par_t, grain_t, gen, lab, nfit, tol, gvfor, bad, savedt, err, order, ind, savedpk>>)
+                  /\ Keep(<<par_t, grain_t, gen, lab, nfit, tol, gvfor, bad, savedt, err, order, ind, savedpk, sav>>)
 AssignLabels == StartAssign("assign")
 \* one grain of the first loop (steps: 1 set_translation, 2 kernel gv, 3 score_and_assign)
 AssignSetT == /\ call \in {"assign", "refpos"} /\ step = 1 /\ cur <= NG
               /\ par_t' = grain_t[cur] /\ step' = 2
-              /\ Keep(<<grain_t, gen, lab, nfit, tol, gvfor, call, cur, ncalls, bad, reset, presented, savedt, pk>>)
+              /\ Keep(<<grain_t, gen, lab, nfit, tol, gvfor, call, cur, ncalls, bad, reset, presented, savedt, pk, sav, fresh>>)
 AssignKernelGv == /\ call \in {"assign", "refpos"} /\ step = 2
                   /\ gvfor' = <<cur, grain_t[cur]>>                 \* translation passed by argument: gr.translation
                   /\ step' = 3
-                  /\ Keep(<<par_t, grain_t, gen, lab, nfit, tol, call, cur, ncalls, bad, reset, presented, savedt, pk>>)
+                  /\ Keep(<<par_t, grain_t, gen, lab, nfit, tol, call, cur, ncalls, bad, reset, presented, savedt, pk, sav, fresh>>)
 \* the loop body of score_and_assign for the grain at place cur (its errors are err[order[cur]])
 Better(k) == err[order[cur]][k] < E /\ err[order[cur]][k] < drl[k]
 TakeLabel(k) == IF LAST_WINS THEN err[order[cur]][k] < E ELSE Better(k)
@@ -117,7 +138,7 @@ AssignScore == /\ call \in {"assign", "refpos"} /\ step = 3
                /\ own' = [k \in Peaks |-> IF TakeLabel(k) THEN cur ELSE IF own[k] = cur THEN 0 ELSE own[k]]
                /\ drl' = [k \in Peaks |-> IF Better(k) THEN err[order[cur]][k] ELSE drl[k]]
                /\ IF cur < NG THEN cur' = cur + 1 /\ step' = 1 ELSE cur' = 1 /\ step' = 4
-               /\ Keep(<<par_t, grain_t, gen, lab, nfit, tol, gvfor, call, ncalls, savedt, err, order, ind, savedpk>>)
+               /\ Keep(<<par_t, grain_t, gen, lab, nfit, tol, gvfor, call, ncalls, savedt, err, order, ind, savedpk, sav, fresh>>)
 \* second loop: per grain set_translation + tth/eta per grain (uses the parameter object)
 AssignSecond == /\ call \in {"assign", "refpos"} /\ step = 4
                 /\ par_t' = grain_t[cur]
@@ -125,20 +146,20 @@ AssignSecond == /\ call \in {"assign", "refpos"} /\ step = 4
                    ELSE /\ cur' = 1 /\ step' = IF call = "assign" THEN 99 ELSE 10
                 /\ lab' = (cur = NG \/ lab)
                 /\ ind' = [ind EXCEPT ![cur] = {k \in Peaks : own[k] = cur}]        \* gr.ind = compress(int_tmp == g)
-                /\ Keep(<<grain_t, gen, nfit, tol, gvfor, call, ncalls, bad, reset, presented, savedt, err, order, own, drl, savedpk>>)
+                /\ Keep(<<grain_t, gen, nfit, tol, gvfor, call, ncalls, bad, reset, presented, savedt, err, order, own, drl, savedpk, sav, fresh>>)
 AssignDone == /\ call = "assign" /\ step = 99 /\ call' = "idle" /\ step' = 0 /\ cur' = 0
-              /\ Keep(<<par_t, grain_t, gen, lab, nfit, tol, gvfor, ncalls, bad, reset, presented, savedt, pk>>)
+              /\ Keep(<<par_t, grain_t, gen, lab, nfit, tol, gvfor, ncalls, bad, reset, presented, savedt, pk, sav, fresh>>)
 
 \* ---- refinepositions: assignlabels ; tol = 1.0 ; for g: set_translation ; simplex(gof) ; store ; refine ; tol back
 RefinePositions == StartAssign("refpos")
 RPTol == /\ call = "refpos" /\ step = 10 /\ tol' = "one" /\ step' = 11
-         /\ Keep(<<par_t, grain_t, gen, lab, nfit, gvfor, call, cur, ncalls, bad, reset, presented, savedt, pk>>)
+         /\ Keep(<<par_t, grain_t, gen, lab, nfit, gvfor, call, cur, ncalls, bad, reset, presented, savedt, pk, sav, fresh>>)
 RPSetT == /\ call = "refpos" /\ step = 11 /\ par_t' = grain_t[cur] /\ step' = 12
-          /\ Keep(<<grain_t, gen, lab, nfit, tol, gvfor, call, cur, ncalls, bad, reset, presented, savedt, pk>>)
+          /\ Keep(<<grain_t, gen, lab, nfit, tol, gvfor, call, cur, ncalls, bad, reset, presented, savedt, pk, sav, fresh>>)
 \* a simplex trial: applyargs puts the trial translation into the parameter object, compute_gv(g) uses it
 RPGof == /\ call = "refpos" /\ step \in {12, 13}
          /\ par_t' = <<"trial", cur, 0>> /\ gvfor' = <<cur, <<"trial", cur, 0>>>> /\ step' = 13
-         /\ Keep(<<grain_t, gen, lab, nfit, tol, call, cur, ncalls, bad, reset, presented, savedt, pk>>)
+         /\ Keep(<<grain_t, gen, lab, nfit, tol, call, cur, ncalls, bad, reset, presented, savedt, pk, sav, fresh>>)
 \* grains[key].translation = parameterobj t_x,t_y,t_z  (the last trial) ; then refine(ubi) on the shared gv
 RPStore == /\ call = "refpos" /\ step = 13 /\ nfit[cur] < MAXFIT
            /\ grain_t' = [grain_t EXCEPT ![cur] = <<"fit", cur, nfit[cur] + 1>>]
@@ -148,32 +169,43 @@ RPStore == /\ call = "refpos" /\ step = 13 /\ nfit[cur] < MAXFIT
            /\ lab' = lab
            /\ IF cur < NG THEN cur' = cur + 1 /\ step' = 11 ELSE cur' = 1 /\ step' = 14
            /\ \E row \in [Peaks -> 0..E] : err' = [err EXCEPT ![order[cur]] = row]    \* the grain moved: new errors
-           /\ Keep(<<gen, tol, call, ncalls, bad, reset, presented, savedt, order, own, drl, ind, savedpk>>)
+           /\ Keep(<<gen, tol, call, ncalls, bad, reset, presented, savedt, order, own, drl, ind, savedpk, sav, fresh>>)
 RPDone == /\ call = "refpos" /\ step = 14 /\ tol' = "user" /\ call' = "idle" /\ step' = 0 /\ cur' = 0
-          /\ Keep(<<par_t, grain_t, gen, lab, nfit, gvfor, ncalls, bad, reset, presented, savedt, pk>>)
+          /\ Keep(<<par_t, grain_t, gen, lab, nfit, gvfor, ncalls, bad, reset, presented, savedt, pk, sav, fresh>>)
 
 \* ---- refineubis / savegrains: for g: set_translation ; compute_gv(g) ; refine / put hkl --------------------
+\* the (object, key) pairs: refineubis sorts the keys ; savegrains(sort_npks) lists them by decreasing npks
+ByNpks(q) == \A i, j \in Grains : i < j => Cardinality(ind[q[i]]) >= Cardinality(ind[q[j]])
 PerGrain(c) == /\ Enter(c) /\ gen /\ lab
-               /\ Keep(<<par_t, grain_t, gen, lab, nfit, tol, gvfor, bad, reset, presented, savedt, pk>>)
+               /\ IF c = "save"
+                  THEN \E sort \in BOOLEAN : \E q \in Perms :
+                          /\ (IF sort THEN ByNpks(q) ELSE q = IdPerm)
+                          /\ sobj' = q /\ skey' = (IF SORT_OBJ_ONLY THEN IdPerm ELSE q)
+                  ELSE sobj' = IdPerm /\ skey' = IdPerm
+               /\ Keep(<<par_t, grain_t, gen, lab, nfit, tol, gvfor, bad, reset, presented, savedt, pk, col>>)
 RefineUbis == PerGrain("refubi")
 SaveGrains == PerGrain("save")
-PGSetT == /\ call \in {"refubi", "save"} /\ step = 1 /\ par_t' = (IF DROP_SETT THEN par_t ELSE grain_t[cur]) /\ step' = 2
-          /\ Keep(<<grain_t, gen, lab, nfit, tol, gvfor, call, cur, ncalls, bad, reset, presented, savedt, pk>>)
+Obj == sobj[cur]            \* the place of the grain object of this step of the loop
+PGSetT == /\ call \in {"refubi", "save"} /\ step = 1 /\ par_t' = (IF DROP_SETT THEN par_t ELSE grain_t[skey[cur]]) /\ step' = 2
+          /\ Keep(<<grain_t, gen, lab, nfit, tol, gvfor, call, cur, ncalls, bad, reset, presented, savedt, pk, sav, fresh>>)
 \* compute_gv(g): translation comes from the parameter object
 PGComputeGv == /\ call \in {"refubi", "save"} /\ step = 2
-               /\ gvfor' = <<cur, par_t>>
-               /\ IF par_t # grain_t[cur] THEN Flag("compute_gv with a translation that is not the grain's own") ELSE bad' = bad
+               /\ gvfor' = <<Obj, par_t>>
+               /\ IF par_t # grain_t[Obj] THEN Flag("compute_gv with a translation that is not the grain's own") ELSE bad' = bad
                /\ step' = 3
-               /\ Keep(<<par_t, grain_t, gen, lab, nfit, tol, call, cur, ncalls, reset, presented, savedt, pk>>)
+               /\ Keep(<<par_t, grain_t, gen, lab, nfit, tol, call, cur, ncalls, reset, presented, savedt, pk, sav, fresh>>)
 PGUse == /\ call \in {"refubi", "save"} /\ step = 3
-         /\ IF gvfor[1] # cur THEN Flag("refine / hkl output on another grain's g-vectors")
-            ELSE IF ind[cur] # {k \in Peaks : own[k] = cur} THEN Flag("refine / hkl output on rows the grain does not own")
+         /\ IF gvfor[1] # Obj THEN Flag("refine / hkl output on another grain's g-vectors")
+            ELSE IF ind[Obj] # {k \in Peaks : own[k] = Obj} THEN Flag("refine / hkl output on rows the grain does not own")
             ELSE bad' = bad
-         /\ savedt' = IF call = "save" THEN [savedt EXCEPT ![cur] = gvfor[2]] ELSE savedt
-         /\ savedpk' = IF call = "save" THEN [savedpk EXCEPT ![cur] = ind[cur]] ELSE savedpk     \* numpy.put(h, g.ind, ...)
+         /\ savedt' = IF call = "save" THEN [savedt EXCEPT ![Obj] = gvfor[2]] ELSE savedt
+         /\ savedpk' = IF call = "save" THEN [savedpk EXCEPT ![Obj] = ind[Obj]] ELSE savedpk     \* numpy.put(h, g.ind, ...)
+         \* numpy.put(gx .. l, g.ind, values from the object's ubi and the shared g-vectors) ; tth / eta / omegacalc per grain
+         /\ col' = IF call = "save" THEN [k \in Peaks |-> IF k \in ind[Obj] THEN <<Obj, gvfor[2]>> ELSE col[k]] ELSE col
+         /\ fresh' = (call = "save" /\ cur = NG)
          /\ IF cur < NG THEN cur' = cur + 1 /\ step' = 1 ELSE cur' = 0 /\ step' = 0 /\ call' = "idle"
          /\ (cur < NG => call' = call)
-         /\ Keep(<<par_t, grain_t, gen, lab, nfit, tol, gvfor, ncalls, reset, presented, err, order, own, drl, ind>>)
+         /\ Keep(<<par_t, grain_t, gen, lab, nfit, tol, gvfor, ncalls, reset, presented, err, order, own, drl, ind, sobj, skey>>)
 
 Next == Generate \/ GenerateDone \/ AssignLabels \/ AssignSetT \/ AssignKernelGv \/ AssignScore \/ AssignSecond
         \/ AssignDone \/ RefinePositions \/ RPTol \/ RPSetT \/ RPGof \/ RPStore \/ RPDone
@@ -184,7 +216,7 @@ Spec == Init /\ [][Next]_vars
 NoBad == bad = ""
 \* whenever the shared g-vectors are used for grain g outside a simplex they were made with g's own translation
 GvUsesOwnTranslation ==
-   (call \in {"refubi", "save"} /\ step = 3) => (gvfor[1] = cur /\ gvfor[2] = grain_t[cur])
+   (call \in {"refubi", "save"} /\ step = 3) => (gvfor[1] = Obj /\ gvfor[2] = grain_t[Obj])
 KernelGvOwn == (call \in {"assign", "refpos"} /\ step = 3) => gvfor = <<cur, grain_t[cur]>>
 TolRestored == call = "idle" => tol = "user"
 TolOneOnlyInSimplex == tol = "one" => call = "refpos"
@@ -212,5 +244,11 @@ IndIsOwned == (lab /\ ~PassRunning) => \A p \in Grains : ind[p] = {k \in Peaks :
 \* by one savegrains call
 SavedRowsDisjoint == (call = "idle" /\ \A p \in Grains : savedt[p] # T_NONE /\ savedpk[p] = ind[p]) =>
                         \A p, q \in Grains : p # q => savedpk[p] \cap savedpk[q] = {}
+\* when savegrains returns every owned peak carries the columns of its owner: that grain's ubi, that grain's translation
+SavedColumnsOwn == fresh => \A k \in Peaks : own[k] # 0 => col[k] = <<own[k], grain_t[own[k]]>>
+\* the loops visit every grain once ; a sorted save lists the grains by decreasing number of peaks
+SaveOrder == (call \in {"refubi", "save"}) =>
+                /\ \A g \in Grains : \E i \in Grains : sobj[i] = g
+                /\ (call = "refubi" => sobj = IdPerm)
 EachGrainOncePerPass == (call \in {"assign", "refpos"} /\ step = 4) => presented = Grains
 =============================================================================
